@@ -244,7 +244,7 @@ def recordStep {V C X ρ : Type} (trace : Trace V C X ρ) (handles : HandleMap) 
     some (trace', handles)
 
 /-- `AdapterTap` around the adapter `E` (+ `tap_results` around the result iterator). -/
-def tapEnv {V C X ρ : Type} (E : Env (Action V C X ρ) (Response V C X)) :
+@[reducible] def tapEnv {V C X ρ : Type} (E : Env (Action V C X ρ) (Response V C X)) :
     Env (Action V C X ρ) (Response V C X) where
   S := TapState V C X ρ E.S
   init := { inner := E.init }
@@ -452,7 +452,7 @@ def readerStep (s : ReaderState V C X ρ) (a : Action V C X ρ) :
       | _ => none
 
 /-- `TraceReaderAdapter` over `trace.ops`. -/
-def readerEnv (trace : Trace V C X ρ) : Env (Action V C X ρ) (Response V C X) where
+@[reducible] def readerEnv (trace : Trace V C X ρ) : Env (Action V C X ρ) (Response V C X) where
   S := ReaderState V C X ρ
   init := { nextOp := trace.ops }
   step := readerStep
